@@ -642,3 +642,18 @@ def extra_checks(tier, repo, builddir):
                     "control_native_replay": [x.get("reproduced") for x in rep if x],
                     "failed": [], "stats": r.get("stats", {}), "wall_s": r.get("wall_s")})
     return res
+
+
+# ---- cross-included by the main session: the server's RSA key exchange must not reveal, through WHICH functions run,
+# whether the PKCS#1 padding of the decrypted premaster was valid (Bleichenbacher): the random substitute is drawn and
+# the master secret computed on both outcomes.  Decided by the C03 query server-do_rsa_decrypt (real do_rsa_decrypt over
+# recording stubs of the policy, the DRBG and compute_master: one call of each whatever the secret validity bit).
+_c08_queries_base = queries
+def queries():
+    qs = _c08_queries_base()
+    try:
+        import C03
+        qs = qs + [q for q in C03._base_queries() if q.name in ("server-do_rsa_decrypt", "server-do_ecdh", "server-do_static_ecdh")]
+    except Exception:
+        pass
+    return qs
